@@ -345,10 +345,9 @@ macro_rules! impl_traits {
                 } else {
                     Some(
                         (self.loc
-                            + self.scale.mul_add(
-                                (1.0 + self.shape).powf(-self.shape),
-                                -1.0,
-                            ) / self.shape) as $kind,
+                            + self.scale
+                                * ((1.0 + self.shape).powf(-self.shape) - 1.0)
+                                / self.shape) as $kind,
                     )
                 }
             }
